@@ -314,7 +314,7 @@ META = {
         "level": "exploration",
         "race": True,
         "evaluations": ["cases"],
-        "required": ["cases", "ops", "cleanups", "cases_with_context", "late_cleanup_cases", "porcupine:Ok", "canary_race_reports", "verbose_checks", "checks_run", "rapid_log_scenarios"],
+        "required": ["cases", "ops", "cleanups", "cases_with_context", "late_cleanup_cases", "porcupine:Ok", "canary_race_reports", "verbose_checks", "checks_run", "rapid_log_scenarios", "scenarios_with_a_user_lock"],
         "show": ["cases", "ops", "cleanups", "late_cleanup_cases", "porcupine:Ok", "porcupine:Illegal", "porcupine:Unknown", "race_reports_distinct", "canary_race_reports"],
         "rule": "binary built with -race; each case starts G in {2,4,8,16,32} goroutines behind a barrier, each running a random script over {Helper, Name, Log, "
                 "Logf, Error, Errorf, Fail, Failed, Context, Cleanup} on the case's T (variants: all scripts start with Context(); goroutines polling Context() across the end of the property "
